@@ -23,6 +23,8 @@ import (
 //
 //	case := "<period> <ty> reloc=<k> x=<0|1> | <pt> <pt> ..."     ("-" for the empty series)
 //	period := "fix:<ns>" (fixed duration, UTC) | "fix:<ns>@<offsetSec>" (fixed duration in a fixed-offset zone) | "day" (calendar day, UTC)
+//	        | "tab:<day|week|month>@<zone>:<b0>,<b1>,..." (the real calendar period of that zone; b_i = its consecutive starts, computed
+//	          by the generator from GetStartTime alone, = the model's period; instants of the case stay inside [b0, b_last))
 //	ty := "i" | "f"        declared field type (int64 / float64)
 //	reloc=k                how the instants are expressed as time.Time values:
 //	                       0 t.UTC(); 1 t.In(America/New_York); 2 t.In(Asia/Kolkata); 3 rotating per index; 4 time.Unix(0,ns) (Local)
@@ -116,9 +118,34 @@ func tsParseCell(s string) (tsCell, error) {
 	return tsCell{}, fmt.Errorf("bad cell %q", s)
 }
 
+func tsCalendarPeriod(kind string, loc *time.Location) (timeseries.AlignmentPeriod, error) {
+	switch kind {
+	case "day":
+		return timeseries.NewDayAlignmentPeriod(loc), nil
+	case "week":
+		return timeseries.NewWeekAlignmentPeriod(loc), nil
+	case "month":
+		return timeseries.NewMonthAlignmentPeriod(loc), nil
+	}
+	return nil, fmt.Errorf("bad calendar kind %q", kind)
+}
+
 func tsParsePeriod(s string) (timeseries.AlignmentPeriod, error) {
 	if s == "day" {
 		return timeseries.NewDayAlignmentPeriod(time.UTC), nil
+	}
+	if strings.HasPrefix(s, "tab:") {
+		// tab:<kind>@<zone>:<b0>,<b1>,... - the real calendar period; the table of its starts is for the model only
+		parts := strings.SplitN(s[4:], ":", 2)
+		kind, zone, ok := strings.Cut(parts[0], "@")
+		if !ok {
+			return nil, fmt.Errorf("bad table period %q", s)
+		}
+		loc, err := time.LoadLocation(zone)
+		if err != nil {
+			return nil, err
+		}
+		return tsCalendarPeriod(kind, loc)
 	}
 	if strings.HasPrefix(s, "fix:") {
 		body := s[4:]
@@ -430,7 +457,87 @@ var tsFltPat = [][]float64{
 }
 
 // tsStart is the model of the period's start used only to decide the T/N flag (periods touched).
+var tsTabCache = map[string][]int64{}
+
+func tsTabBounds(period string) []int64 {
+	if b, ok := tsTabCache[period]; ok {
+		return b
+	}
+	var out []int64
+	if i := strings.LastIndex(period, ":"); i >= 0 {
+		for _, x := range strings.Split(period[i+1:], ",") {
+			v, _ := strconv.ParseInt(x, 10, 64)
+			out = append(out, v)
+		}
+	}
+	tsTabCache[period] = out
+	return out
+}
+
+// tsBuildTable returns "tab:<kind>@<zone>:<b0>,...,<b(n-1)>": n consecutive period starts from the period containing
+// `from`, obtained from GetStartTime alone (next start = GetStartTime(cur + a step that lands inside the next period)),
+// or "" if the table is not consistent with GetStartTime (zones whose local midnight is skipped/repeated: C12's D14).
+func tsBuildTable(kind, zone string, from time.Time, n int) (string, []int64) {
+	loc, err := time.LoadLocation(zone)
+	if err != nil {
+		return "", nil
+	}
+	ap, err := tsCalendarPeriod(kind, loc)
+	if err != nil {
+		return "", nil
+	}
+	step := 36 * time.Hour
+	switch kind {
+	case "week":
+		step = (7*24 + 36) * time.Hour
+	case "month":
+		step = 45 * 24 * time.Hour
+	}
+	cur := ap.GetStartTime(from)
+	bs := []int64{cur.UnixNano()}
+	for len(bs) < n {
+		nxt := ap.GetStartTime(cur.Add(step))
+		if !nxt.After(cur) || !ap.GetStartTime(nxt).Equal(nxt) || !ap.GetStartTime(nxt.Add(-1)).Equal(cur) {
+			return "", nil
+		}
+		bs = append(bs, nxt.UnixNano())
+		cur = nxt
+	}
+	parts := make([]string, len(bs))
+	for i, b := range bs {
+		parts[i] = strconv.FormatInt(b, 10)
+	}
+	return "tab:" + kind + "@" + zone + ":" + strings.Join(parts, ","), bs
+}
+
+type tsTabSpec struct {
+	kind, zone string
+	from       time.Time
+}
+
+// calendar periods around daylight-saving changes (23 h, 25 h, 23.5 h, 24.5 h days; months and weeks containing them)
+var tsTabSpecs = []tsTabSpec{
+	{"day", "America/New_York", time.Date(2024, 3, 7, 12, 0, 0, 0, time.UTC)},
+	{"day", "America/New_York", time.Date(2024, 10, 31, 12, 0, 0, 0, time.UTC)},
+	{"day", "Europe/Berlin", time.Date(2024, 3, 28, 12, 0, 0, 0, time.UTC)},
+	{"day", "Europe/Berlin", time.Date(2024, 10, 24, 12, 0, 0, 0, time.UTC)},
+	{"day", "Australia/Lord_Howe", time.Date(2024, 4, 4, 12, 0, 0, 0, time.UTC)},
+	{"day", "Australia/Lord_Howe", time.Date(2024, 10, 3, 12, 0, 0, 0, time.UTC)},
+	{"week", "America/New_York", time.Date(2024, 2, 28, 12, 0, 0, 0, time.UTC)},
+	{"month", "Europe/Berlin", time.Date(2024, 2, 10, 12, 0, 0, 0, time.UTC)},
+	{"month", "America/New_York", time.Date(2024, 9, 10, 12, 0, 0, 0, time.UTC)},
+}
+
 func tsPeriodKey(period string, t int64) int64 {
+	if strings.HasPrefix(period, "tab:") {
+		k := int64(-1)
+		for _, b := range tsTabBounds(period) {
+			if b <= t {
+				k++
+			}
+		}
+		return k
+	}
 	d := int64(86400) * 1000000000
 	off := int64(0)
 	if strings.HasPrefix(period, "fix:") {
@@ -534,7 +641,7 @@ func genC13(c *Ctx) {
 	// seeded random longer series
 	rp := []pk{{"fix:3600000000000", 3600000000000}, {"fix:900000000000", 900000000000}, {"day", 86400000000000},
 		{"fix:1000000000", 1000000000}, {"fix:7", 7}, {"fix:3600000000000@19800", 3600000000000}, {"fix:86400000000000@-18000", 86400000000000}}
-	n := c.Pick(4000, 80000)
+	n := c.Pick(4000, 200000)
 	for it := 0; it < n; it++ {
 		r := c.Rng
 		p := rp[r.Intn(len(rp))]
@@ -614,5 +721,51 @@ func genC13(c *Ctx) {
 			}
 		}
 		emitC13(c, p.name, ty, r.Intn(5), exact, pts)
+	}
+	// calendar periods in zones with daylight-saving changes (period = table of starts taken from GetStartTime)
+	nt := c.Pick(150, 1500)
+	for _, sp := range tsTabSpecs {
+		name, bs := tsBuildTable(sp.kind, sp.zone, sp.from, 9)
+		if name == "" {
+			continue
+		}
+		for it := 0; it < nt; it++ {
+			r := c.Rng
+			ty := byte('i')
+			if r.Bool() {
+				ty = 'f'
+			}
+			exact := r.Intn(3) > 0
+			ln := r.Small(12)
+			var ts []int64
+			for i := 0; i < ln; i++ {
+				j := r.Intn(len(bs) - 2) // stay inside the table: [b0, b(n-2))
+				switch r.Intn(5) {
+				case 0:
+					ts = append(ts, bs[j])
+				case 1:
+					ts = append(ts, bs[j]+1)
+				case 2:
+					ts = append(ts, bs[j+1]-1)
+				default:
+					ts = append(ts, bs[j]+int64(r.Next()%uint64(bs[j+1]-bs[j])))
+				}
+			}
+			sort.Slice(ts, func(a, b int) bool { return ts[a] < ts[b] })
+			pts := make([]tsPoint, len(ts))
+			for i, t := range ts {
+				var cell tsCell
+				if ty == 'i' {
+					cell = tsCell{Kind: 'i', I: int64(r.Range(-1000, 1000))}
+					if !exact {
+						cell.I = int64(r.Next()>>3) - (1 << 60)
+					}
+				} else {
+					cell = tsCell{Kind: 'f', F: tsRandFloat(r, exact)}
+				}
+				pts[i] = tsPoint{t, []tsCell{cell}}
+			}
+			emitC13(c, name, ty, r.Intn(5), exact, pts)
+		}
 	}
 }
